@@ -8,7 +8,7 @@ try:
 except Exception as e:
     print("MANIFEST invalid:", str(e)[:300]); ok=False
 sch=json.load(open('/root/.vp/EVIDENCE.schema.json'))
-for f in sorted(glob.glob('/verif/evidence/*.json')):
+for f in sorted(x for x in glob.glob('/verif/evidence/*.json') if not x.endswith('.replay.json')):
     try:
         jsonschema.validate(json.load(open(f)), sch)
     except Exception as e:
